@@ -25,6 +25,7 @@ import (
 //	height <h>                                  height of the following blocks                          -> ok
 //	reg <chain> <router> | unreg <chain>        plant / remove a side-chain record                      -> ok
 //	black|white n=<nonce> s=<signers> <chain>   BlackChain / WhiteChain signed by <signers>             -> ok | reject:<class>
+//	dput <chain> <id> | dcheck <chain> <id>     the real PutDoneTx / CheckDoneTx on the committed state -> ok | done | free
 //	ethsetup n=<nonce> chain=<c> m=<extra>,<extra>,..   build a synthetic Ethereum state whose contract storage commits to the
 //	       given messages and install a header with that state root through the real eth SyncGenesisHeader   -> ok | reject
 //	import n=<nonce> th=<txhash> s=<signers> rl=<id|bad> src=<chain> h=<height> px=<proof> hd=<header> ex=<extra>
@@ -43,6 +44,7 @@ type ccmFam struct {
 	reg      map[uint64]uint64
 	mainNet  bool
 	eth      map[uint64]*ethState // synthetic Ethereum state installed per chain (ethsetup)
+	marked   map[string]bool      // (chain, id) for which PutDoneTx was executed (dput, or an executed import)
 }
 
 func init() { families["ccm"] = func() hx.Family { return &ccmFam{} } }
@@ -55,6 +57,7 @@ func (f *ccmFam) Reset(r *hx.Run) {
 	f.reg = map[uint64]uint64{}
 	f.mainNet = true
 	f.eth = map[uint64]*ethState{}
+	f.marked = map[string]bool{}
 }
 
 func kv(tok string) (string, string) {
@@ -244,6 +247,33 @@ func (f *ccmFam) Exec(r *hx.Run, op []string) string {
 			r.Viol("C21:"+op[0]+"-witness", fmt.Sprintf("%sChain(%d) signed by [%s]: result %v (the operator witness decides)", op[0], chain, s, err))
 		}
 		return out
+	case "dput", "dcheck":
+		chain, id := u64(op[1]), hx.UnHex(op[2])
+		mk := fmt.Sprintf("%d/%x", chain, id)
+		if op[0] == "dput" {
+			before := w.writeSet()
+			scom.PutDoneTx(w.view(), id, chain)
+			w.cache.Commit()
+			w.cache.Reset()
+			changed := diffKeys(before, w.writeSet())
+			logKeys(changed)
+			want := string(rawDoneKey(chain, id))
+			for _, k := range changed {
+				if k != want {
+					r.Viol(fmt.Sprintf("C17:done-key-not-raw:idlen=%d", len(id)), fmt.Sprintf("PutDoneTx(chain %d, id %x) wrote the key %x; the record of that (chain, id) is doneTx ‖ chain ‖ id = %x", chain, id, k, want))
+				}
+			}
+			f.marked[mk] = true
+			return "ok"
+		}
+		done := scom.CheckDoneTx(w.view(), id, chain) != nil
+		if done != f.marked[mk] {
+			r.Viol(fmt.Sprintf("C20:done-check-wrong:idlen=%d", len(id)), fmt.Sprintf("CheckDoneTx(chain %d, id %x) answers done=%v, but PutDoneTx was%s executed for exactly that (chain, id)", chain, id, done, map[bool]string{true: "", false: " never"}[f.marked[mk]]))
+		}
+		if done {
+			return "done"
+		}
+		return "free"
 	case "ethsetup":
 		var nonce uint32
 		var chain uint64
@@ -394,6 +424,15 @@ func (f *ccmFam) doImport(r *hx.Run, op []string) string {
 			r.Viol("C21:import-accepted:router-inactive", fmt.Sprintf("import through router %d succeeded at height %d, before its start block", srcRouter, w.height))
 		}
 	}
+	if o.dec {
+		mk := fmt.Sprintf("%d/%x", o.src, o.p.CrossChainID)
+		if doneBefore != f.marked[mk] {
+			r.Viol(fmt.Sprintf("C20:done-check-wrong:idlen=%d", len(o.p.CrossChainID)), fmt.Sprintf("before this import CheckDoneTx(chain %d, id %x) answered done=%v, but that message was%s executed or marked before", o.src, o.p.CrossChainID, doneBefore, map[bool]string{true: "", false: " never"}[f.marked[mk]]))
+		}
+		if doneAfter {
+			f.marked[mk] = true
+		}
+	}
 	if executed && o.dec {
 		if f.black[o.p.ToChainID] {
 			r.Viol("C21:import-accepted:dst-black", fmt.Sprintf("import towards blacklisted chain %d was executed", o.p.ToChainID))
@@ -442,6 +481,16 @@ func (f *ccmFam) doImport(r *hx.Run, op []string) string {
 		r.Hist(fmt.Sprintf("router%d.%s", srcRouter, out))
 	}
 	return fmt.Sprintf("%s done=%s req=%s xh=%s new=%d", out, done, req, xhStr, nNewReq)
+}
+
+// rawDoneKey is the storage key of the done record of (chain, id), written by hand.
+func rawDoneKey(chain uint64, id []byte) []byte {
+	k := []byte{0x05, 0, 0, 0, 0, 0, 0, 0, 0, 0, 0, 0, 0, 0, 0, 0, 0, 0, 0, 0, 0x03}
+	k = append(k, "doneTx"...)
+	for i := 0; i < 8; i++ {
+		k = append(k, byte(chain>>(8*uint(i))))
+	}
+	return append(k, id...)
 }
 
 // refMerkleValue is an independent encoding of ToMerkleValue (hand-written, not the repo's sink).
@@ -547,13 +596,20 @@ func (f *ccmFam) Gen(r *hx.Run) {
 			return o
 		}
 		// message pool
+		// a family of related cross-chain ids: x (longer than a hash), sha256(x), x[:32], x‖00, and the boundary lengths
+		x := rng.Bytes([]int{33, 64, 300}[rng.Intn(3)])
+		hx32 := sha256.Sum256(x)
+		idFamily := [][]byte{x, hx32[:], append([]byte{}, x[:32]...), append(append([]byte{}, x...), 0), {}, rng.Bytes(1), rng.Bytes(31), rng.Bytes(32)}
+		useFamily := rng.Bool()
 		var pool []*msg
 		for i := 0; i < 4; i++ {
 			to := universe[rng.Intn(len(universe))]
 			p := scom.MakeTxParam{TxHash: rng.Bytes(1 + rng.Intn(32)), CrossChainID: rng.Bytes([]int{0, 1, 8, 32, 33}[rng.Intn(5)]),
 				FromContractAddress: rng.Bytes(rng.Intn(21)), ToChainID: to, ToContractAddress: rng.Bytes(rng.Intn(21)),
 				Method: []string{"unlock", "", "a"}[rng.Intn(3)], Args: rng.Bytes([]int{0, 3, 60, 253, 300}[rng.Intn(5)])}
-			if i > 0 && rng.Chance(1, 3) { // same cross-chain id as an earlier message, different content
+			if useFamily {
+				p.CrossChainID = idFamily[i] // x, sha256(x), x[:32], x‖00: four different messages
+			} else if i > 0 && rng.Chance(1, 3) { // same cross-chain id as an earlier message, different content
 				p.CrossChainID = pool[rng.Intn(len(pool))].p.CrossChainID
 			}
 			sink := common.NewZeroCopySink(nil)
@@ -753,6 +809,17 @@ func (f *ccmFam) Gen(r *hx.Run) {
 					kind = "white"
 				}
 				r.Do(fmt.Sprintf("%s n=%d s=%s %d", kind, nonce, signer, ch))
+			case x == 17 && rng.Bool(): // the done records directly: related ids on the same and on another chain
+				c1 := universe[rng.Intn(len(universe))]
+				c2 := universe[rng.Intn(len(universe))]
+				a := idFamily[rng.Intn(len(idFamily))]
+				b := idFamily[rng.Intn(4)]
+				r.Do(fmt.Sprintf("dcheck %d %s", c1, hx.Hex(a)))
+				r.Do(fmt.Sprintf("dput %d %s", c1, hx.Hex(a)))
+				r.Do(fmt.Sprintf("dcheck %d %s", c1, hx.Hex(a)))
+				r.Do(fmt.Sprintf("dcheck %d %s", c1, hx.Hex(b)))
+				r.Do(fmt.Sprintf("dcheck %d %s", c2, hx.Hex(a)))
+				r.Nontrivial(fmt.Sprintf("donetx/%d/%d", len(a), len(b)))
 			case x < 19: // registry
 				ch := universe[rng.Intn(len(universe))]
 				if _, ok := chainRouter[ch]; ok && rng.Bool() {
